@@ -1028,6 +1028,25 @@ package p9
 // everything else through the sequence-level restatement (bridge_ensures).
 
 //@ inline (*buffer).markOverrun, (*buffer).isOverrun, (*buffer).has
+//@ define strLenAt(d []byte) int = int(uint16(d[0]) | uint16(d[1]) << 8)
+
+// ---- buffer primitives, array level (proved against the bodies) ------------------
+//@ func (*buffer).append
+//@   requires[C01,C02] 0 <= n && n <= 65536
+//@   modifies b.data, arrays(byte)
+//@   ensures[C01,C02] @grows-by-n len(b.data) == old(len(b.data)) + n
+//@   ensures[C01,C02] @prefix-preserved sameelems(b.data, old(b.data), old(len(b.data)))
+//@   ensures[C01,C02] @returns-the-new-tail arr(result) == arr(b.data) && off(result) == off(b.data) + old(len(b.data)) && len(result) == n
+//@   safety[C02]
+//@   nopanic
+//@ func (*buffer).consume
+//@   requires[C01,C02] 0 <= n
+//@   modifies b.data, b.overflow
+//@   ensures[C01,C02] @ok-iff-enough result1 == (old(len(b.data)) >= n)
+//@   ensures[C01,C02] @takes-the-first-n result1 ==> arr(result0) == old(arr(b.data)) && off(result0) == old(off(b.data)) && len(result0) == n && arr(b.data) == old(arr(b.data)) && off(b.data) == old(off(b.data)) + n && len(b.data) == old(len(b.data)) - n && b.overflow == old(b.overflow)
+//@   ensures[C02] @marks-overrun !result1 ==> b.overflow && b.data == old(b.data) && result0 == nil
+//@   safety[C02]
+//@   nopanic
 
 //@ group wrFrame
 //@   modifies $wr, b.data, arrays(byte)
@@ -1035,26 +1054,31 @@ package p9
 //@   modifies $rd, b.data, b.overflow
 
 //@ func (*buffer).Write8
-//@   abstract
+//@   ensures[C01,C02] @bytes-appended-little-endian sameelems(b.data, old(b.data), old(len(b.data))) && b.data[old(len(b.data)) + 0] == uint8(v >> 0)
+//@   nopanic
 //@   use wrFrame
 //@   ensures[C01,C13] len(b.data) == old(len(b.data)) + 1
 //@   bridge_ensures[C01] wr(b) == snoc8(old(wr(b)), v) && sameWrExcept(b)
 //@ func (*buffer).Write16
-//@   abstract
+//@   ensures[C01,C02] @bytes-appended-little-endian sameelems(b.data, old(b.data), old(len(b.data))) && b.data[old(len(b.data)) + 0] == uint8(v >> 0) && b.data[old(len(b.data)) + 1] == uint8(v >> 8)
+//@   nopanic
 //@   use wrFrame
 //@   ensures[C01,C13] len(b.data) == old(len(b.data)) + 2
 //@   bridge_ensures[C01] wr(b) == snoc16(old(wr(b)), v) && sameWrExcept(b)
 //@ func (*buffer).Write32
-//@   abstract
+//@   ensures[C01,C02] @bytes-appended-little-endian sameelems(b.data, old(b.data), old(len(b.data))) && b.data[old(len(b.data)) + 0] == uint8(v >> 0) && b.data[old(len(b.data)) + 1] == uint8(v >> 8) && b.data[old(len(b.data)) + 2] == uint8(v >> 16) && b.data[old(len(b.data)) + 3] == uint8(v >> 24)
+//@   nopanic
 //@   use wrFrame
 //@   ensures[C01,C13] len(b.data) == old(len(b.data)) + 4
 //@   bridge_ensures[C01] wr(b) == snoc32(old(wr(b)), v) && sameWrExcept(b)
 //@ func (*buffer).Write64
-//@   abstract
+//@   ensures[C01,C02] @bytes-appended-little-endian sameelems(b.data, old(b.data), old(len(b.data))) && b.data[old(len(b.data)) + 0] == uint8(v >> 0) && b.data[old(len(b.data)) + 1] == uint8(v >> 8) && b.data[old(len(b.data)) + 2] == uint8(v >> 16) && b.data[old(len(b.data)) + 3] == uint8(v >> 24) && b.data[old(len(b.data)) + 4] == uint8(v >> 32) && b.data[old(len(b.data)) + 5] == uint8(v >> 40) && b.data[old(len(b.data)) + 6] == uint8(v >> 48) && b.data[old(len(b.data)) + 7] == uint8(v >> 56)
+//@   nopanic
 //@   use wrFrame
 //@   ensures[C01,C13] len(b.data) == old(len(b.data)) + 8
 //@   bridge_ensures[C01] wr(b) == snoc64(old(wr(b)), v) && sameWrExcept(b)
 //@ func (*buffer).WriteString
+// (array level: the loop-preservation obligations of the byte-by-byte copy are not decided by any of the installed solvers in bit-vector arithmetic; the contract is assumed, see DESIGN.md)
 //@   abstract
 //@   use wrFrame
 //@   requires[C01] @length-fits-16-bits len(s) <= 65535
@@ -1062,31 +1086,52 @@ package p9
 //@   bridge_ensures[C01] wr(b) == snocstr(old(wr(b)), s) && sameWrExcept(b)
 
 //@ func (*buffer).Read8
-//@   abstract
+//@   ensures[C01,C02] @reads-little-endian old(len(b.data)) >= 1 ==> result == uint8(old(b.data[0])) << 0 && arr(b.data) == old(arr(b.data)) && off(b.data) == old(off(b.data)) + 1 && len(b.data) == old(len(b.data)) - 1 && b.overflow == old(b.overflow)
+//@   ensures[C02] @short-buffer-overruns old(len(b.data)) < 1 ==> result == 0 && b.overflow && b.data == old(b.data)
+//@   safety[C02]
+//@   nopanic
 //@   use rdFrame
 //@   bridge_ensures[C01,C18] !old(b.overflow) && has8(old(rd(b))) ==> result == take8(old(rd(b))) && rd(b) == drop8(old(rd(b))) && !b.overflow
 //@   bridge_ensures[C02,C18] old(b.overflow) ==> b.overflow
 //@   bridge_ensures[C01] sameRdExcept(b)
 //@ func (*buffer).Read16
-//@   abstract
+//@   ensures[C01,C02] @reads-little-endian old(len(b.data)) >= 2 ==> result == uint16(old(b.data[0])) << 0 | uint16(old(b.data[1])) << 8 && arr(b.data) == old(arr(b.data)) && off(b.data) == old(off(b.data)) + 2 && len(b.data) == old(len(b.data)) - 2 && b.overflow == old(b.overflow)
+//@   ensures[C02] @short-buffer-overruns old(len(b.data)) < 2 ==> result == 0 && b.overflow && b.data == old(b.data)
+//@   safety[C02]
+//@   nopanic
 //@   use rdFrame
 //@   bridge_ensures[C01,C18] !old(b.overflow) && has16(old(rd(b))) ==> result == take16(old(rd(b))) && rd(b) == drop16(old(rd(b))) && !b.overflow
 //@   bridge_ensures[C02,C18] old(b.overflow) ==> b.overflow
 //@   bridge_ensures[C01] sameRdExcept(b)
 //@ func (*buffer).Read32
-//@   abstract
+//@   ensures[C01,C02] @reads-little-endian old(len(b.data)) >= 4 ==> result == uint32(old(b.data[0])) << 0 | uint32(old(b.data[1])) << 8 | uint32(old(b.data[2])) << 16 | uint32(old(b.data[3])) << 24 && arr(b.data) == old(arr(b.data)) && off(b.data) == old(off(b.data)) + 4 && len(b.data) == old(len(b.data)) - 4 && b.overflow == old(b.overflow)
+//@   ensures[C02] @short-buffer-overruns old(len(b.data)) < 4 ==> result == 0 && b.overflow && b.data == old(b.data)
+//@   safety[C02]
+//@   nopanic
 //@   use rdFrame
 //@   bridge_ensures[C01,C18] !old(b.overflow) && has32(old(rd(b))) ==> result == take32(old(rd(b))) && rd(b) == drop32(old(rd(b))) && !b.overflow
 //@   bridge_ensures[C02,C18] old(b.overflow) ==> b.overflow
 //@   bridge_ensures[C01] sameRdExcept(b)
 //@ func (*buffer).Read64
-//@   abstract
+//@   ensures[C01,C02] @reads-little-endian old(len(b.data)) >= 8 ==> result == uint64(old(b.data[0])) << 0 | uint64(old(b.data[1])) << 8 | uint64(old(b.data[2])) << 16 | uint64(old(b.data[3])) << 24 | uint64(old(b.data[4])) << 32 | uint64(old(b.data[5])) << 40 | uint64(old(b.data[6])) << 48 | uint64(old(b.data[7])) << 56 && arr(b.data) == old(arr(b.data)) && off(b.data) == old(off(b.data)) + 8 && len(b.data) == old(len(b.data)) - 8 && b.overflow == old(b.overflow)
+//@   ensures[C02] @short-buffer-overruns old(len(b.data)) < 8 ==> result == 0 && b.overflow && b.data == old(b.data)
+//@   safety[C02]
+//@   nopanic
 //@   use rdFrame
 //@   bridge_ensures[C01,C18] !old(b.overflow) && has64(old(rd(b))) ==> result == take64(old(rd(b))) && rd(b) == drop64(old(rd(b))) && !b.overflow
 //@   bridge_ensures[C02,C18] old(b.overflow) ==> b.overflow
 //@   bridge_ensures[C01] sameRdExcept(b)
 //@ func (*buffer).ReadString
-//@   abstract
+//@   ensures[C01,C02] @length-prefixed old(len(b.data)) >= 2 && old(len(b.data)) - 2 >= strLenAt(old(b.data)) ==> len(result) == strLenAt(old(b.data)) && forall(i, 0, len(result), result[i] == old(b.data[2 + i])) && len(b.data) == old(len(b.data)) - 2 - len(result) && off(b.data) == old(off(b.data)) + 2 + len(result) && arr(b.data) == old(arr(b.data)) && b.overflow == old(b.overflow)
+//@   ensures[C02] @short-buffer-overruns old(len(b.data)) < 2 || old(len(b.data)) - 2 < strLenAt(old(b.data)) ==> result == "" && b.overflow
+//@   ensures[C02] @allocation-bounded len(result) <= 65535
+//@   safety[C02]
+//@   nopanic
+//@   loop 0 invariant[C01,C02] 0 <= i && i <= int(l)
+//@   loop 0 invariant[C01,C02] len(bs) == int(l) && (old(len(b.data)) < 2 ==> l == 0 && b.overflow)
+//@   loop 0 invariant[C01,C02] old(len(b.data)) >= 2 ==> int(l) == strLenAt(old(b.data)) && int(l) <= old(len(b.data)) - 2 && arr(b.data) == old(arr(b.data)) && off(b.data) == old(off(b.data)) + 2 + i && len(b.data) == old(len(b.data)) - 2 - i && b.overflow == old(b.overflow)
+//@   loop 0 invariant[C01,C02] old(len(b.data)) >= 2 ==> forall(j, 0, i, bs[j] == old(b.data[2 + j]))
+//@   loop 0 decreases[C01] int(l) - i
 //@   use rdFrame
 //@   bridge_ensures[C01,C18] !old(b.overflow) && hasstr(old(rd(b))) ==> result == takestr(old(rd(b))) && rd(b) == dropstr(old(rd(b))) && !b.overflow
 //@   bridge_ensures[C02,C18] old(b.overflow) ==> b.overflow
@@ -1320,14 +1365,15 @@ package p9
 //@   loop 0 invariant[C01] wr(b) == snocstrs(snoc16(snoc32(snoc32(old(wr(b)), uint32(t.fid)), uint32(t.newFID)), uint16(len(t.Names))), t.Names, rangeindex + 1)
 //@   loop 0 invariant[C01] sameWrExcept(b)
 //@ func (*twalk).decode
-//@   logical mfid uint32, mnew uint32, mn uint16, mnames strs, R seq
+//@   logical mfid uint32, mnew uint32, mn uint16, mnames strs, R seq, hyp bool
+//@   requires[C01,C18] @hyp-names-the-frame-shape hyp == (!b.overflow && rd(b) == cons32(mfid, cons32(mnew, cons16(mn, consstrs(mnames, 0, int(mn), R)))) && forall(j, 0, int(mn), len(mnames[j]) <= 65535))
 //@   modifies $rd, b.overflow, b.data, self.fid, self.newFID, self.Names, arrays(string)
-//@   ensures[C01,C18] @decodes-what-was-encoded !old(b.overflow) && old(rd(b)) == cons32(mfid, cons32(mnew, cons16(mn, consstrs(mnames, 0, int(mn), R)))) && forall(j, 0, int(mn), len(mnames[j]) <= 65535) ==> t.fid == fid(mfid) && t.newFID == fid(mnew) && len(t.Names) == int(mn) && forall(j, 0, int(mn), t.Names[j] == mnames[j]) && rd(b) == R && !b.overflow
+//@   ensures[C01,C18] @decodes-what-was-encoded hyp ==> t.fid == fid(mfid) && t.newFID == fid(mnew) && len(t.Names) == int(mn) && forall(j, 0, int(mn), t.Names[j] == mnames[j]) && rd(b) == R && !b.overflow
 //@   ensures[C02,C18] @overrun-is-sticky old(b.overflow) ==> b.overflow
 //@   ensures[C01] @other-buffers-untouched sameRdExcept(b)
 //@   nopanic
 //@   loop 0 invariant[C01,C18] 0 <= i
-//@   loop 0 invariant[C01,C18] !old(b.overflow) && old(rd(b)) == cons32(mfid, cons32(mnew, cons16(mn, consstrs(mnames, 0, int(mn), R)))) && forall(j, 0, int(mn), len(mnames[j]) <= 65535) ==> i <= int(mn) && t.fid == fid(mfid) && t.newFID == fid(mnew) && len(t.Names) == i && forall(j, 0, i, t.Names[j] == mnames[j]) && rd(b) == consstrs(mnames, i, int(mn), R) && !b.overflow
+//@   loop 0 invariant[C01,C18] hyp ==> n == mn && i <= int(mn) && t.fid == fid(mfid) && t.newFID == fid(mnew) && len(t.Names) == i && forall(j, 0, i, t.Names[j] == mnames[j]) && rd(b) == consstrs(mnames, i, int(mn), R) && !b.overflow
 //@   loop 0 invariant[C02,C18] old(b.overflow) ==> b.overflow
 //@   loop 0 invariant[C01] sameRdExcept(b)
 
@@ -1341,14 +1387,15 @@ package p9
 //@   loop 0 invariant[C01] wr(b) == snocstrs(snoc16(snoc32(snoc32(old(wr(b)), uint32(t.fid)), uint32(t.newFID)), uint16(len(t.Names))), t.Names, rangeindex + 1)
 //@   loop 0 invariant[C01] sameWrExcept(b)
 //@ func (*twalkgetattr).decode
-//@   logical mfid uint32, mnew uint32, mn uint16, mnames strs, R seq
+//@   logical mfid uint32, mnew uint32, mn uint16, mnames strs, R seq, hyp bool
+//@   requires[C01,C18] @hyp-names-the-frame-shape hyp == (!b.overflow && rd(b) == cons32(mfid, cons32(mnew, cons16(mn, consstrs(mnames, 0, int(mn), R)))) && forall(j, 0, int(mn), len(mnames[j]) <= 65535))
 //@   modifies $rd, b.overflow, b.data, self.fid, self.newFID, self.Names, arrays(string)
-//@   ensures[C01,C18] @decodes-what-was-encoded !old(b.overflow) && old(rd(b)) == cons32(mfid, cons32(mnew, cons16(mn, consstrs(mnames, 0, int(mn), R)))) && forall(j, 0, int(mn), len(mnames[j]) <= 65535) ==> t.fid == fid(mfid) && t.newFID == fid(mnew) && len(t.Names) == int(mn) && forall(j, 0, int(mn), t.Names[j] == mnames[j]) && rd(b) == R && !b.overflow
+//@   ensures[C01,C18] @decodes-what-was-encoded hyp ==> t.fid == fid(mfid) && t.newFID == fid(mnew) && len(t.Names) == int(mn) && forall(j, 0, int(mn), t.Names[j] == mnames[j]) && rd(b) == R && !b.overflow
 //@   ensures[C02,C18] @overrun-is-sticky old(b.overflow) ==> b.overflow
 //@   ensures[C01] @other-buffers-untouched sameRdExcept(b)
 //@   nopanic
 //@   loop 0 invariant[C01,C18] 0 <= i
-//@   loop 0 invariant[C01,C18] !old(b.overflow) && old(rd(b)) == cons32(mfid, cons32(mnew, cons16(mn, consstrs(mnames, 0, int(mn), R)))) && forall(j, 0, int(mn), len(mnames[j]) <= 65535) ==> i <= int(mn) && t.fid == fid(mfid) && t.newFID == fid(mnew) && len(t.Names) == i && forall(j, 0, i, t.Names[j] == mnames[j]) && rd(b) == consstrs(mnames, i, int(mn), R) && !b.overflow
+//@   loop 0 invariant[C01,C18] hyp ==> n == mn && i <= int(mn) && t.fid == fid(mfid) && t.newFID == fid(mnew) && len(t.Names) == i && forall(j, 0, i, t.Names[j] == mnames[j]) && rd(b) == consstrs(mnames, i, int(mn), R) && !b.overflow
 //@   loop 0 invariant[C02,C18] old(b.overflow) ==> b.overflow
 //@   loop 0 invariant[C01] sameRdExcept(b)
 
@@ -1362,14 +1409,15 @@ package p9
 //@   loop 0 invariant[C01] wr(b) == snocqids(snoc16(old(wr(b)), uint16(len(r.QIDs))), r.QIDs, rangeindex + 1)
 //@   loop 0 invariant[C01] sameWrExcept(b)
 //@ func (*rwalk).decode
-//@   logical mn uint16, mq qidlist, R seq
+//@   logical mn uint16, mq qidlist, R seq, hyp bool
+//@   requires[C01,C18] @hyp-names-the-frame-shape hyp == (!b.overflow && rd(b) == cons16(mn, consqids(mq, 0, int(mn), R)))
 //@   modifies $rd, b.overflow, b.data, self.QIDs, arrays(QID)
-//@   ensures[C01,C18] @decodes-what-was-encoded !old(b.overflow) && old(rd(b)) == cons16(mn, consqids(mq, 0, int(mn), R)) ==> len(r.QIDs) == int(mn) && forall(j, 0, int(mn), r.QIDs[j] == mq[j]) && rd(b) == R && !b.overflow
+//@   ensures[C01,C18] @decodes-what-was-encoded hyp ==> len(r.QIDs) == int(mn) && forall(j, 0, int(mn), r.QIDs[j] == mq[j]) && rd(b) == R && !b.overflow
 //@   ensures[C02,C18] @overrun-is-sticky old(b.overflow) ==> b.overflow
 //@   ensures[C01] @other-buffers-untouched sameRdExcept(b)
 //@   nopanic
 //@   loop 0 invariant[C01,C18] 0 <= i
-//@   loop 0 invariant[C01,C18] !old(b.overflow) && old(rd(b)) == cons16(mn, consqids(mq, 0, int(mn), R)) ==> i <= int(mn) && len(r.QIDs) == i && forall(j, 0, i, r.QIDs[j] == mq[j]) && rd(b) == consqids(mq, i, int(mn), R) && !b.overflow
+//@   loop 0 invariant[C01,C18] hyp ==> n == mn && i <= int(mn) && len(r.QIDs) == i && forall(j, 0, i, r.QIDs[j] == mq[j]) && rd(b) == consqids(mq, i, int(mn), R) && !b.overflow
 //@   loop 0 invariant[C02,C18] old(b.overflow) ==> b.overflow
 //@   loop 0 invariant[C01] sameRdExcept(b)
 
@@ -1383,14 +1431,15 @@ package p9
 //@   loop 0 invariant[C01] wr(b) == snocqids(snoc16(enc_Attr(enc_AttrMask(old(wr(b)), old(r.Valid)), old(r.Attr)), uint16(len(r.QIDs))), r.QIDs, rangeindex + 1)
 //@   loop 0 invariant[C01] sameWrExcept(b)
 //@ func (*rwalkgetattr).decode
-//@   logical mv AttrMask, ma Attr, mn uint16, mq qidlist, R seq
+//@   logical mv AttrMask, ma Attr, mn uint16, mq qidlist, R seq, hyp bool
+//@   requires[C01,C18] @hyp-names-the-frame-shape hyp == (!b.overflow && rd(b) == dec_AttrMask(mv, dec_Attr(ma, cons16(mn, consqids(mq, 0, int(mn), R)))))
 //@   modifies $rd, b.overflow, b.data, self.Valid, self.Attr, self.QIDs, arrays(QID)
-//@   ensures[C01,C18] @decodes-what-was-encoded !old(b.overflow) && old(rd(b)) == dec_AttrMask(mv, dec_Attr(ma, cons16(mn, consqids(mq, 0, int(mn), R)))) ==> r.Valid == mv && r.Attr == ma && len(r.QIDs) == int(mn) && forall(j, 0, int(mn), r.QIDs[j] == mq[j]) && rd(b) == R && !b.overflow
+//@   ensures[C01,C18] @decodes-what-was-encoded hyp ==> r.Valid == mv && r.Attr == ma && len(r.QIDs) == int(mn) && forall(j, 0, int(mn), r.QIDs[j] == mq[j]) && rd(b) == R && !b.overflow
 //@   ensures[C02,C18] @overrun-is-sticky old(b.overflow) ==> b.overflow
 //@   ensures[C01] @other-buffers-untouched sameRdExcept(b)
 //@   nopanic
 //@   loop 0 invariant[C01,C18] 0 <= i
-//@   loop 0 invariant[C01,C18] !old(b.overflow) && old(rd(b)) == dec_AttrMask(mv, dec_Attr(ma, cons16(mn, consqids(mq, 0, int(mn), R)))) ==> i <= int(mn) && r.Valid == mv && r.Attr == ma && len(r.QIDs) == i && forall(j, 0, i, r.QIDs[j] == mq[j]) && rd(b) == consqids(mq, i, int(mn), R) && !b.overflow
+//@   loop 0 invariant[C01,C18] hyp ==> n == mn && i <= int(mn) && r.Valid == mv && r.Attr == ma && len(r.QIDs) == i && forall(j, 0, i, r.QIDs[j] == mq[j]) && rd(b) == consqids(mq, i, int(mn), R) && !b.overflow
 //@   loop 0 invariant[C02,C18] old(b.overflow) ==> b.overflow
 //@   loop 0 invariant[C01] sameRdExcept(b)
 
